@@ -86,7 +86,9 @@ Pairs == CASE Mode = "entries" -> Entries \X Entries
            [] Mode = "rets" -> Rets \X Rets
            [] Mode = "laws" -> {<<EmptyEntry, EmptyEntry>>}            \* one behaviour: the laws are constant-level
 PairSeq == SE!SetToSeq(Pairs)
-Init == /\ \E k \in 1..Len(PairSeq) : k % NShards = Shard /\ t = PairSeq[k][1] /\ o = PairSeq[k][2]
+\* (the sequence is handed over as an ARGUMENT: TLC evaluates an argument once, a definition indexed inside a quantifier every time)
+ShardOf(seq) == {seq[k] : k \in {j \in 1..Len(seq) : j % NShards = Shard}}
+Init == /\ \E pr \in ShardOf(PairSeq) : t = pr[1] /\ o = pr[2]
         /\ pc = "start" /\ m = "none"
 Merge == /\ pc = "start"
          /\ m' = CASE Mode \in {"entries", "laws"} -> MergeEntry(t, o) [] Mode = "params" -> MergeParams(t, o) [] Mode = "rets" -> MergeRet(t, o)
